@@ -205,14 +205,14 @@ ActStep ==
         /\ prog' = [prog EXCEPT ![n] = IF Ev.phase = "TERMINATED" THEN <<Ev.inst, 0, 6>> ELSE np]
         /\ decs' = IF Ev.dec # Bot THEN decs \cup {[n |-> n, i |-> i, v |-> Ev.dec]} ELSE decs
         /\ bad' = bad \cup {<<l, c>> : c \in nb}
-        /\ (nb = {} \/ Cardinality(bad) > 40 \/ PrintT(<<"VERIF_BAD", l, nb>>))
+        /\ (nb = {} \/ Cardinality(bad) > 2000 \/ PrintT(<<"VERIF_BAD", l, nb>>))
         /\ UNCHANGED adv
 
 RejStep ==
   /\ Ev.ev = "Rejected"
   /\ LET nb == IF Ev.byz THEN (IF adv = "script" \/ Ev.bad THEN {} ELSE {"Conf_ByzMessageRejected"}) ELSE {"C07_EmitsValid"}
      IN /\ bad' = bad \cup {<<l, c>> : c \in nb}
-        /\ (nb = {} \/ Cardinality(bad) > 40 \/ PrintT(<<"VERIF_BAD", l, nb>>))
+        /\ (nb = {} \/ Cardinality(bad) > 2000 \/ PrintT(<<"VERIF_BAD", l, nb>>))
   /\ UNCHANGED <<dlv, outs, inputs, prog, decs, adv>>
 
 OtherStep == Ev.ev \in {"CrashStop"} /\ UNCHANGED <<dlv, outs, inputs, prog, decs, adv, bad>>
